@@ -149,7 +149,7 @@ p["units"] += [K("h_tdigest::td_empty_reads", "quick", "empty digest: NaN / 0"),
 p = prop("C16",
          functions=["TDigest::{insert,insert_weighted,count,sum,mean,min,max,is_empty,n_centroids}", "TDigestInner::{insert_weighted,merge}", "Centroid::{fuse,mean}", "K0::{f,f_inv}"],
          bounds="states with <=2 centroids + <=2 backlog entries (hook-built), weights 0..4, integer values -8..8; K0 with delta 1.1 (total fusion) and 1000 (none); backlog sizes 0 and 10",
-         outside=["merges of more than 3 inputs (ran out of memory at design time)", "K1 (asin: FFI), K2/K3 (ln/exp) scale functions in merge", "floating-point accumulation error on non-integer data"],
+         outside=["merges of more than 2 inputs (a 2+1 merge exhausts 46 GB in CBMC; the harnesses exist in the crate but are not part of any tier)", "K1 (asin: FFI), K2/K3 (ln/exp) scale functions in merge", "floating-point accumulation error on non-integer data"],
          assumptions=TD_ASSUME + ["aggregates are observed as raw totals over centroids+backlog through verif hooks, and through count()/sum()/mean() after the merge"])
 p["units"] += [
     K("h_tdigest::td_insert_step_c0b0", "quick", "insert_weighted into the empty digest"),
@@ -157,12 +157,10 @@ p["units"] += [
     K("h_tdigest::td_insert_any_weight_c1", "quick", "same into a one-centroid digest", "w any f64"),
     K("h_tdigest::td_insert_step_c2b1", "quick", "insert_weighted, 2 centroids + 1 backlog"),
     K("h_tdigest::td_insert_step_c1b2", "quick", "insert_weighted, 1 centroid + 2 backlog"),
-    K("h_tdigest::td_merge_step_c1b1_fuse", "thorough", "merge step 1+1 read-triggered, delta=1.1: totals preserved, sorted, backlog emptied", mem_class_gb=28, timeout_s=3600, mem_gb=48),
-    K("h_tdigest::td_merge_step_c1b1_keep", "thorough", "merge step 1+1 read-triggered, delta=1000", mem_class_gb=28, timeout_s=3600, mem_gb=48),
+    K("h_tdigest::td_merge_step_c1b1_fuse", "thorough", "merge step 1+1 read-triggered, delta=1.1: totals preserved, sorted, backlog emptied", mem_class_gb=40, timeout_s=3600, mem_gb=50),
+    K("h_tdigest::td_merge_step_c1b1_keep", "thorough", "merge step 1+1 read-triggered, delta=1000", mem_class_gb=40, timeout_s=3600, mem_gb=50),
     K("h_tdigest::td_insert_merges_backlog0", "quick", "max_backlog_size=0, delta=1000: insert merges immediately, totals/min/max exact, no fusion", mem_class_gb=10, timeout_s=1800, mem_gb=30),
     K("h_tdigest::td_insert_merges_backlog0_fuse", "quick", "max_backlog_size=0, delta=1.1: insert merges and fuses, totals/min/max exact", mem_class_gb=10, timeout_s=1800, mem_gb=30),
-    K("h_tdigest::td_merge_step_c2b1_keep", "thorough", "merge 2+1, delta=1000", mem_class_gb=28, timeout_s=7200, mem_gb=55),
-    K("h_tdigest::td_merge_step_c1b2_fuse", "thorough", "merge 1+2, delta=1.1", mem_class_gb=28, timeout_s=7200, mem_gb=55),
 ]
 
 # --------------------------------------------------------------------------- C14
@@ -301,7 +299,7 @@ p["units"] += [
     K("h_serde::serde_deser_dup_b", "quick", "deserialize(document of this shape, any b, any register contents) is Err or satisfies 4<=b<=18 and len=2^b; then add/merge do not panic; valid documents are accepted", "dup_b", mem_class_gb=4, timeout_s=1800, must_cover=[]),
     K("h_serde::serde_deser_dup_bh", "quick", "deserialize(document of this shape, any b, any register contents) is Err or satisfies 4<=b<=18 and len=2^b; then add/merge do not panic; valid documents are accepted", "dup_bh", mem_class_gb=4, timeout_s=1800, must_cover=[]),
     K("h_serde::serde_deser_empty", "quick", "deserialize(document of this shape, any b, any register contents) is Err or satisfies 4<=b<=18 and len=2^b; then add/merge do not panic; valid documents are accepted", "empty", mem_class_gb=4, timeout_s=1800, must_cover=[]),
-    K("h_serde::serde_deser_rbh_len32", "thorough", "same at 32 registers", "rbh_len32", mem_class_gb=6, timeout_s=3000),
+    K("h_serde::serde_deser_rbh_len32", "thorough", "same at 32 registers (accepting path: add/merge/clone over 32 registers)", "rbh_len32", mem_class_gb=40, timeout_s=5400, mem_gb=50),
     K("h_serde::serde_deser_rbh_len31", "thorough", "same at 32 registers", "rbh_len31", mem_class_gb=6, timeout_s=3000),
     K("h_serde::serde_deser_rbh_len33", "thorough", "same at 32 registers", "rbh_len33", mem_class_gb=6, timeout_s=3000),
     K("h_serde::serde_roundtrip_b4", "quick", "serialize -> deserialize gives an equal sketch with the same reaction to add", "b=4", mem_class_gb=6, timeout_s=3000),
